@@ -42,6 +42,10 @@ type ResultV struct {
 	V  Value
 }
 type UnitV struct{}
+type OptV struct {
+	Some bool
+	V    Value
+}
 
 // Copy implements by-value transfer: structs and fixed arrays are copied deeply;
 // dynamic arrays, references and closures are shared.
@@ -61,6 +65,8 @@ func Copy(v Value) Value {
 		return n
 	case ResultV:
 		return ResultV{v.Ok, Copy(v.V)}
+	case OptV:
+		return OptV{v.Some, Copy(v.V)}
 	}
 	return v
 }
@@ -387,6 +393,10 @@ func (in *interp) coerce(v Value, t Type) Value {
 		if a, ok := v.(*ArrV); ok {
 			return DynV{&DynObj{E: a.E}}
 		}
+	case TOpt:
+		if _, ok := v.(OptV); !ok {
+			return OptV{Some: true, V: in.coerce(v, tt.Elem)}
+		}
 	}
 	return v
 }
@@ -544,6 +554,17 @@ func (in *interp) evalKeepRef(e Expr, env *Env) Value {
 			panic(catchReturn{v})
 		}
 		return v
+	case *NoneLit:
+		return OptV{}
+	case *Coalesce:
+		o, ok := in.eval(e.X, env).(OptV)
+		if !ok {
+			fault("?? on non-optional")
+		}
+		if o.Some {
+			return o.V
+		}
+		return in.eval(e.D, env)
 	case *Len:
 		switch x := in.eval(e.X, env).(type) {
 		case *ArrV:
